@@ -37,7 +37,7 @@ def main(tier):
     errs = gen_mod.generate(REPO, os.path.join(ck.dyn, "GenMod.v"))
     ck.stage_a(errs, ["GenMod.v"], "TieMod.v", "C08.v", tie_text=modties.tie_text())
     rng = ck.rng
-    ncase = 40 if tier == "quick" else 260
+    ncase = 60 if tier == "quick" else 1200
     wq = ["qint8", "qint4", "qint2", "qfloat8", "qfloat8_e4m3fn", "qfloat8_e5m2"]
     aq = [None, "qint8", "qfloat8", None, "qint8", "qfloat8_e5m2"]
     cases = []
